@@ -7,6 +7,7 @@
    execution is a sequential history; that is the model's atomicity assumption, checked against the code by the race stress only. *)
 From Coq Require Import List NArith ZArith Permutation.
 From TarsV Require Import Base.Hex Gen.Consts Select.Selectors Select.Hist Select.WeightProofs Select.SelProofs Select.RingProofs.
+From TarsV Require Xlate.BSWLEquiv.
 Import ListNotations.
 
 (* members only: after any history, for any oracle values, a selection that succeeds returns an endpoint of the current set *)
